@@ -182,6 +182,8 @@ fn enumerate(_tier: Tier, idx: u32, of: u32, cx: &mut Cx) -> CaseResult {
         ("huge-blocks", crate::probes::huge_block_tree()),
         ("huge-file", crate::probes::huge_file_tree()),
         ("big-hunk", crate::probes::big_hunk_tree()),
+        // more entries than one index hunk takes with the default options (100 000)
+        ("over-default-hunk", crate::probes::over_default_hunk_tree()),
         // 700 directories while the process may hold at most 512 open files
         ("many-dirs-low-fd-limit", crate::probes::many_dirs_tree()),
     ] {
